@@ -103,6 +103,7 @@ class StackWorld(object):
     self.peak_outstanding = 0
     self.heal_times = {}
     self.attempts = {}
+    self.retry_attempts = {}
     self.mode_log = {}          # ep index -> [(time, mode)]
 
   # ------------------------------------------------------------------ build
@@ -135,16 +136,32 @@ class StackWorld(object):
       call is one (re)connection attempt of that resurrector."""
       def __init__(self, inner):
         self.inner = inner
+        self.owner = None
 
       def CreateSink(self, properties):
         ep = str(properties.get('endpoint'))
         world.attempts.setdefault(ep, []).append(CLOCK.now)
+        if not getattr(self.owner, 'sim_in_open', 0):
+          # not made from Open(): the resurrector's own retry loop
+          world.retry_attempts.setdefault(ep, []).append(CLOCK.now)
         world.loop.note('resurrector.create', ep)
         return self.inner.CreateSink(properties)
 
+    class RecResurrector(ResurrectorSink):
+      sim_in_open = 0
+
+      def Open(self):
+        self.sim_in_open += 1
+        try:
+          return ResurrectorSink.Open(self)
+        finally:
+          self.sim_in_open -= 1
+
     class RecRes(ResurrectorSink.Builder):
       def CreateSink(self, properties):
-        s = ResurrectorSink(LoggingFactory(self.next_provider), self.sink_properties, properties)
+        f = LoggingFactory(self.next_provider)
+        s = RecResurrector(f, self.sink_properties, properties)
+        f.owner = s
         world.resurrectors.append(s)
         return s
 
@@ -334,12 +351,35 @@ class StackWorld(object):
     elif dl is not None:
       REC.violation('C13', 'deadline_context_unexpected', 'call %s has no timeout but carries a deadline' % r.call_id)
 
+  def _sleep_until_retry_timer(self):
+    """Fault placement: if a resurrector is asleep between two reconnection
+    attempts, wake the closing greenlet at exactly the instant its timer
+    expires (the loop then decides which of the two runs first)."""
+    from gevent.hub import Waiter
+    mine = set(id(r._resurrector) for r in self.resurrectors if getattr(r, '_resurrector', None) is not None)
+    due = None
+    for ev in self.loop._events:
+      if ev.cancelled:
+        continue
+      cb = getattr(getattr(ev.fn, '__self__', None), 'callback', None)
+      g = getattr(getattr(cb, '__self__', None), 'greenlet', None)
+      if g is not None and id(g) in mine and ev.due > CLOCK.now and (due is None or ev.due < due):
+        due = ev.due
+    if due is None or due - CLOCK.now > 130.0:
+      return
+    REC.probe('close_at_retry_timer')
+    w = Waiter()
+    self.loop.schedule_at(due, w.switch, None, kind='timer')
+    w.get()
+
   # ------------------------------------------------------------------ faults
   def apply_fault(self, f):
     do = f['do']
     self.loop.note('fault', '%s ep=%s' % (do, f.get('ep')))
     if do == 'close':
       if self.closed_at is None:
+        if f.get('snap'):
+          self._sleep_until_retry_timer()
         self.closed_at = CLOCK.now
         REC.fault('client_close')
         self.client.DispatcherClose()
@@ -406,6 +446,9 @@ class StackWorld(object):
       args = (mod.Pair(a=arg, b=int(cid[1:])),)
     else:
       args = (arg,)
+    if op.get('badarg'):
+      args = (srv.Unserialisable(cid),)      # an object where the interface declares a string
+      REC.probe('unserialisable_argument')
     snap_closed = [r for r in self.resurrectors]
     all_down = None
     if self.closed_at is None and self.balancers and self.resurrectors:
@@ -771,13 +814,17 @@ class StackWorld(object):
     tr = self.tracker
     # (a) fail fast while every current member is down
     for c in tr.order:
+      if (c.spec or {}).get('badarg'):
+        continue      # fails in the serialiser, above the balancer: never routed to an endpoint
       if c.extra.get('all_down_at_issue') and c.inner is not None and not c.before_open:
         REC.probe('failfast')
         if not c.completions:
           REC.violation('C09', 'not_failed_fast', 'call %s issued while every member was down never completed' % c.id)
           continue
         t1, kind, obj = c.completions[0][:3]
-        if t1 - c.t > 1e-3:
+        if t1 - c.t > 1e-3 and (self.scn.get('loop') or {}).get('stall_prob'):
+          REC.probe('failfast_delayed_by_process_stall')
+        elif t1 - c.t > 1e-3:
           REC.violation('C09', 'not_failed_fast',
                         'call %s issued while every member was down completed after %.6f s with %s' % (
                           c.id, t1 - c.t, exc_name(obj) if kind == 'exc' else 'a value'))
@@ -787,18 +834,17 @@ class StackWorld(object):
                           c.id, exc_name(obj) if kind == 'exc' else 'a value'))
     # (d) no connect attempts after Close
     if self.closed_at is not None:
-      # Retries create a fresh transport for every attempt.  A transport that
-      # already existed at Close may still make one reconnect of its own (a
-      # request that was in flight on it times out); that is not a retry.
+      # The property, literally: the retry loop of a resurrector makes no
+      # attempt after the close.  (Connections made after the close on behalf
+      # of requests issued before it, or a transport's own reconnect after a
+      # timeout, are not reconnection attempts.)
       for ep in self.net.by_index:
-        for conn in ep.conns:
-          st = conn.started_at
-          born = conn.owner_created_at
-          if st is not None and st > self.closed_at + 1e-6 and (born is None or born > self.closed_at + 1e-6):
-            REC.violation('C09', 'connect_after_close',
-                          'connect attempt to %s:%d at %.6f by a transport created %.6f s after the client was closed' % (
-                            ep.host, ep.port, st - EPOCH, (born or st) - self.closed_at))
-            break
+        att = self.retry_attempts.get('%s:%d' % (ep.host, ep.port), [])
+        late = [a for a in att if a > self.closed_at + 1e-9]
+        if late:
+          REC.violation('C09', 'connect_after_close',
+                        'reconnection attempt to %s:%d begun %.6f s after the client was closed' % (
+                          ep.host, ep.port, late[0] - self.closed_at))
     if any(r.state == ChannelState.Closed for r in self.resurrectors):
       REC.probe('node_down')
     if self.scn.get('focus') == 'c09':
@@ -916,6 +962,9 @@ class StackWorld(object):
       all_samples.extend(data)
       if not data or not isinstance(a.total, list):
         continue
+      sset = VarzReceiver.VARZ_DATA[metric][source]
+      if CLOCK.now - getattr(sset, 'last_update', CLOCK.now) >= VarzAggregator.MAX_AGG_AGE - 1.0:
+        continue      # by design, a reservoir not updated for MAX_AGG_AGE is left out of the aggregate
       lo, hi = min(data) - 1e-9, max(data) + 1e-9
       pcts = a.total[1:]
       if any(p < lo or p > hi for p in pcts) or not (lo <= a.total[0] <= hi):
